@@ -70,7 +70,7 @@ func (c *SubscriptionManager) AddSubscription(remoteDevice api.DeviceRemoteInter
 	}
 
 	c.subscriptionEntries = append(c.subscriptionEntries, subscriptionEntry)
-	verifPoint("AddSubscription.inserted", subscriptionEntry.Id)
+	verifPoint("AddSubscription.inserted", subscriptionEntry.Id, c)
 
 	payload := api.EventPayload{
 		Ski:          remoteDevice.Ski(),
@@ -137,6 +137,7 @@ func (c *SubscriptionManager) RemoveSubscription(data model.SubscriptionManageme
 	}
 
 	c.subscriptionEntries = newSubscriptionEntries
+	verifPoint("RemoveSubscription.stored", c)
 
 	payload := api.EventPayload{
 		Ski:          remoteDevice.Ski(),
@@ -197,6 +198,7 @@ func (c *SubscriptionManager) RemoveSubscriptionsForEntity(remoteEntity api.Enti
 	}
 
 	c.subscriptionEntries = newSubscriptionEntries
+	verifPoint("RemoveSubscriptionsForEntity.stored", c)
 }
 
 func (c *SubscriptionManager) Subscriptions(remoteDevice api.DeviceRemoteInterface) []*api.SubscriptionEntry {
